@@ -37,6 +37,8 @@ def variants(name, lvl):
         yield ('rule', None, ('choice', lit, ('super', 'X'))), []
         yield ('rule', None, ('choice', ('ref', 'N%d' % lvl), ('super', 'X'))), [('N%d' % lvl, ('rule', None, lit))]
     if name == 'Y':
+        # an inherited rule passed as a bare argument from the derived grammar
+        yield ('class', None, [('y', False, ('call', 'T', [('ref', 'X')], []))]), []
         # the same definition again, now textually in the derived grammar (same literal argument, the derived grammar's ignore)
         yield ('class', None, [('y', False, ('call', 'T', [B], []))]), []
         yield ('class', None, [('y', False, ('seq', lit, ('ref', 'X')))]), []
@@ -68,9 +70,11 @@ def chains(tier):
     for combo in one:
         for ig in IGN2:
             for style in (('named', 'anon') if any(ig) else ('named',)):
-                for dotted in (False, True, 'deep'):
+                for dotted in (False, True, 'deep', 'ovign'):
                     if dotted and style == 'anon':
                         continue
+                    if dotted == 'ovign' and not ig[0]:
+                        continue        # (needs a named ignore rule in the base to override)
                     if tier == 'quick' and dotted and sum(1 for d, _ in combo if d is not None) > 2:
                         continue
                     yield [combo], ig, style, dotted
@@ -81,7 +85,7 @@ def chains(tier):
             if tier == 'quick':
                 if departs1 > 1 or departs2 > 1:
                     continue
-                igs = IGN3[:1] + ([IGN3[3], IGN3[5]] if (departs1 + departs2) <= 1 else [])
+                igs = IGN3[:1] + ([IGN3[1], IGN3[3], IGN3[5]] if (departs1 + departs2) <= 1 else [])
             else:
                 # thorough: every chain without ignore; every ignore placement for chains with <= 4 departures in all
                 igs = IGN3 if departs1 + departs2 <= 4 else IGN3[:1]
@@ -138,8 +142,14 @@ def run_chain(job, reverse):
     def bump(k, n=1):
         ctr[k] = ctr.get(k, 0) + n
     deep = dotted == 'deep'
+    ovign = dotted == 'ovign'
     dotted = dotted is True
     specs = build_specs(levels, ig, style, deep)
+    if ovign:
+        # the derived grammar overrides the base's named ignore rule: blanks are no longer skipped, '~' is
+        specs[1].rules.append(('IgA0', ('rule', None, ('re', '~+'))))
+        specs[1].ruledict['IgA0'] = ('rule', None, ('re', '~+'))
+        specs[1].overrides = set(specs[1].overrides) | {'IgA0'}
     uid = e1.unique_name('c13')
     names = []
     for i, sp in enumerate(specs):
@@ -149,7 +159,8 @@ def run_chain(job, reverse):
         names.append(nm)
     descs = [render.spec(sp) for sp in specs]
     kdescs = [d.replace(uid, 'U') for d in descs]
-    tag = 'chain%d%s%s%s' % (len(specs), '/ignore' if any(ig) else '', '/dotted' if dotted else '', '/deep' if deep else '')
+    tag = 'chain%d%s%s%s%s' % (len(specs), '/ignore' if any(ig) else '', '/dotted' if dotted else '', '/deep' if deep else '',
+                                '/ignore-rule-overridden' if ovign else '')
     mods = []
     baseline = {}     # (module index) -> outcome table recorded right after the module was built
     sigs = set()
